@@ -685,6 +685,11 @@ void Run::opBuild(const Json& op) {
       }
     }
     auto rit = recs.find(c->name);
+    // discovered inputs are source files by construction; a description (edited, or shrunk) in which one of them has become
+    // some command's output is outside the model
+    if (rit != recs.end())
+      for (auto& d : rit->second.discovered)
+        if (desc.producer(d)) noClaim.insert(c->name);
     // the same for source and discovered inputs whose node value changed in a build that did not reach this command
     if (rit != recs.end()) {
       for (auto& i : c->inputs)
@@ -1092,7 +1097,7 @@ void Run::opBuild(const Json& op) {
       continue;
     }
     if (noClaim.count(c->name)) continue;
-    if (want && !did && !predictFail[c->name] && actuallyFailed.empty() && !anyPredictedFailure && !bCancelIssued) {
+    if (want && !did && !predictFail[c->name] && actuallyFailed.empty() && !anyPredictedFailure && !bCancelIssued && !cycle) {
       // (a hard prediction: soft only ever relaxes the "must not run" direction)
       std::string why = !recs.count(c->name) ? "never ran successfully" : recs[c->name].defHash != defHashWithNodes(*c) ? "its definition (or the type/filters of one of its input nodes) changed" : "an input or output changed";
       viol(hasDir ? "C12.1" : "C09.2", "command " + c->name + " was not re-executed in build " + std::to_string(buildNo) + " although " + why);
@@ -1835,6 +1840,7 @@ struct Gen {
       if (c.inputs.size() < 2 || c.name == "R0" || c.name == "W0") return "none";
       std::string x = c.inputs.back();
       if (desc.producer(x) || isVirtualNode(x) || isDirNode(x)) return "none";
+      if (x.size() < 2 || x.substr(x.size() - 2) != ".c") return "none";   // headers can be discovered inputs of others: those stay sources
       for (auto& other : desc.cmds)
         if (&other != &c && std::find(other.inputs.begin(), other.inputs.end(), x) != other.inputs.end()) return "none";
       for (auto& other : desc.cmds)
@@ -1990,6 +1996,10 @@ struct Gen {
             for (auto& x : c.extra) extras.push_back(x[0] == '/' ? x.substr(strlen(kWork) + 1) : x);
           if (!extras.empty()) p = extras[rng.below(extras.size())];
         }
+        if (p.empty() && keys.empty()) {
+          addBuild();
+          continue;
+        }
         if (p.empty()) p = keys[rng.below(keys.size())];
         if (rng.chance(120) && p.size() > 2 && p.substr(p.size() - 2) == ".h") {
           hist.push(Json::obj().set("op", "delete").set("path", util::hex(p)));
@@ -2056,6 +2066,10 @@ struct Gen {
         for (auto& c : desc.cmds)
           if (c.tool == "shell")
             for (auto& o : c.outputs) outs.push_back(o);
+        if (outs.empty()) {   // description edits can remove the last shell command
+          addBuild();
+          continue;
+        }
         std::string o = outs[rng.below(outs.size())];
         if (rng.chance(500)) hist.push(Json::obj().set("op", "delete").set("path", util::hex(o)));
         else hist.push(Json::obj().set("op", "edit").set("path", util::hex(o)).set("content", util::hex("tampered " + std::to_string(counter++) + "\n")));
@@ -2072,6 +2086,10 @@ struct Gen {
         std::vector<std::string> shells;
         for (auto& c : desc.cmds)
           if (c.tool == "shell") shells.push_back(c.name);
+        if (shells.empty()) {
+          addBuild();
+          continue;
+        }
         std::string victim = shells[rng.below(shells.size())];
         static const char* modes[] = {"exit", "signal", "partial", "baddeps", "baddeps2"};
         std::string mode = modes[rng.below(property == "C11" ? 5 : 3)];
